@@ -17,10 +17,14 @@ theorem W.fireTimeout_fr (w : W) (rid : Nat) : Fr w (w.fireTimeout rid) := by
   · exact Fr.wheelBroken _
   split
   · exact Fr.dropT _ _
-  · refine Fr.trans ?_ (Fr.reply _ _ _ _ _)
+  · refine Fr.trans ?_ (Fr.wake _)
+    refine Fr.trans ?_ (Fr.reply _ _ _ _ _)
     refine Fr.trans ?_ (FQ.ctr _ _).fr
     refine Fr.trans ?_ (Fr.dropT _ _)
     exact ((FQ.modR _ _ _).trans ((settleWait_fq _).trans (FQ.ctr _ _))).fr
+
+/-- the sweeper takes a due long-table entry in hand -/
+theorem W.collectT_fr (w : W) (rid : Nat) : Fr w (w.collectT rid) := (FQ.modR _ _ _).fr
 
 theorem W.fireExpire_fr (w : W) (rid : Nat) : Fr w (w.fireExpire rid) := by
   unfold W.fireExpire
@@ -77,7 +81,9 @@ theorem timeoutStep_journal (slot : Bool) (acc : DB × List Ent) (e : Ent) : Sam
   unfold timeoutStep
   split
   · rename_i w hw; exact SameJournal.of_fr _ _ _ (W.visitTimeout_fr _ _ _ _ hw)
-  · exact SameJournal.refl _
+  · cases slot
+    · exact SameJournal.of_fr _ _ _ (W.collectT_fr _ _)
+    · exact SameJournal.refl _
 
 theorem expireStep_journal (slot : Bool) (acc : DB × List Ent) (e : Ent) : SameJournal acc.1 (expireStep slot acc e).1 := by
   unfold expireStep
